@@ -75,7 +75,10 @@ class Parser:
       contentmsg = "Content: {}\n".format(string)
       datatypemsg = "Datatype: {}\n".format(datatype)
       errmsg = err.message if hasattr(err, "message") else str(err)
-      raise err.__class__(
+      # builtin exceptions of the (unsafe) decoders: the string is not valid
+      errclass = err.__class__ if isinstance(err, gfapy.Error) \
+                               else gfapy.FormatError
+      raise errclass(
             linemsg +
             fieldnamemsg +
             datatypemsg +
